@@ -116,7 +116,7 @@ def build_tools(verbose=False):
                 raise FactError("cannot build protoschema:\n" + r.stderr[-4000:])
 
 
-def _prune(base, keep=24):
+def _prune(base, keep=96):
     try:
         ds = [os.path.join(base, d) for d in os.listdir(base)]
         ds = [d for d in ds if os.path.isdir(d)]
